@@ -1,3 +1,4 @@
+import Varint.Bridge.Tagged
 import Varint.Lemmas.Lex
 /-
   C05 — tagged varints sort bytewise (memcmp) in numeric order; prefix-free, so tuples sort too.
@@ -65,5 +66,13 @@ theorem tagged_tuple_order (as bs : List Nat) (ha : ∀ a ∈ as, a < 2 ^ 64) (h
 example : lexCmp (Tagged.enc 240) (Tagged.enc 241) = .lt := by decide
 example : lexCmp (Tagged.enc 0x1ffffffff) (Tagged.enc 0x200000000) = .lt := by decide
 example : lexCmp ([5, 67824].flatMap Tagged.enc) ([5, 67823].flatMap Tagged.enc) = .gt := by decide
+
+
+/-- the same for the bytes the C stores (translation regenerated from src/varintTagged.c on every run):
+    memcmp order of two varintTaggedPut64 outputs = numeric order -/
+theorem c_tagged_lex_eq_compare (a b : Nat) (ha : a < 2 ^ 64) (hb : b < 2 ^ 64) :
+    lexCmp ((Varint.Gen.C.taggedPut64 a).2.map Prod.snd) ((Varint.Gen.C.taggedPut64 b).2.map Prod.snd) = compare a b := by
+  rw [(Varint.Bridge.Tagged.taggedPut64_eq a ha).2.1, (Varint.Bridge.Tagged.taggedPut64_eq b hb).2.1]
+  exact tagged_lex_eq_compare a b ha hb
 
 end Varint.Props.C05
